@@ -230,6 +230,7 @@ Place place_from(const Case &c, const std::string &p) {
     pl.slack = (int)c.i(p + ".slack", 0);
     pl.fill = (int)c.i(p + ".fill", 2);
     pl.fseed = c.u(p + ".fseed", 7);
+    pl.nest = c.i(p + ".nest", 0) != 0;
   }
   return pl;
 }
@@ -237,6 +238,8 @@ Place place_from(const Case &c, const std::string &p) {
 void Opnd::release() {
   if (parent) {
     if (M) vf_free_window(M);
+    if (mid) vf_free_window(mid);
+    mid = nullptr;
     mzd_free(parent);
   } else if (M) {
     mzd_free(M);
@@ -263,7 +266,15 @@ void Opnd::create(const Mat &A, const Place &p) {
     fill_dense(J, p.fseed);
   }
   parent = make_mzd(J);
-  M = mzd_init_window(parent, p.top, 64 * p.lw, p.top + A.m, 64 * p.lw + A.n);
+  if (p.nest) {
+    // window of a window: the intermediate window takes about half of each margin, the view the rest
+    int t1 = (p.top + 1) / 2, l1 = (p.lw + 1) / 2;
+    int r1 = p.top + A.m + p.bot / 2;                         // end row of the intermediate window (parent coordinates)
+    int c1 = 64 * p.lw + A.n + (p.slack + 64 * p.rw + 1) / 2;  // end column
+    mid = mzd_init_window(parent, t1, 64 * l1, r1, c1);
+    M = mzd_init_window(mid, p.top - t1, 64 * (p.lw - l1), p.top - t1 + A.m, 64 * (p.lw - l1) + A.n);
+  } else
+    M = mzd_init_window(parent, p.top, 64 * p.lw, p.top + A.m, 64 * p.lw + A.n);
   if (A.m && A.n) vf_write_block(M, A.w.data(), A.W);
 }
 
